@@ -43,6 +43,15 @@ tests), in two different functions/mechanisms, each of which
  (c) is realistic: it looks like a plausible refactoring, optimisation, clean-up or well-meant
      bug fix that a maintainer could commit, not sabotage (no random constants, no dead branches
      keyed on magic strings),
+ (d0) is NOT one of the first ideas anyone has.  Others have already produced, many times over:
+     comparing or sorting paths as plain strings (string prefix instead of component prefix,
+     suffix-string sort), replacing an ordered list by a set, dropping one character from an
+     escape table, keeping the first instead of the last duplicate, a missing try/finally around
+     a stack push, '<' vs '<=' tie-breaks.  Do not hand in another one of those.  Look deeper:
+     state carried from one run to the next (caches, saved files, time stamps), error and
+     abort paths, features that are rarely combined, the second back end, tool-chain or
+     platform variants, the order of two writes, values that are computed twice in two places
+     and must agree, defaults that apply only when an argument is omitted.
  (d) needs something SPECIFIC to manifest - a particular multi-step sequence of operations, an
      unusual but legitimate input, a crash or fault at a particular point, a particular
      combination of features, or two cooperating sites that each look fine alone. Changes that
